@@ -342,7 +342,7 @@ func step(site uint32) {
 		opLimit[me] = 0
 		panic(Abort{"budget"})
 	}
-	if softFired {
+	if softFired && inOp[me] {
 		panic(Abort{"heap-soft"})
 	}
 	if childAbort != "" && me < baseTasks {
